@@ -1,7 +1,7 @@
 #!/bin/bash
 # usage: thorough_on_copy.sh [ids...] - run the thorough tier of every check on copies of /repo and /verif (HEAD of each), so that
 # work in the real trees (seeded changes applied to /repo, edits in /verif) does not disturb it. Summary lines go to stdout.
-T=/tmp/th
+T=${TH_DIR:-/tmp/th}
 mkdir -p $T
 git -C /repo worktree remove --force $T/repo 2>/dev/null; git -C /repo worktree add -f --detach $T/repo HEAD >/dev/null 2>&1
 git -C /verif worktree remove --force $T/verif 2>/dev/null; git -C /verif worktree add -f --detach $T/verif HEAD >/dev/null 2>&1
